@@ -163,6 +163,18 @@ def gen_case(rng, backend=None, max_ops=40):
             used += 2 + len(pre) + len(post) + len(hb)
             have.add(ca)
             have.add(cb)
+        elif r < 0.63 and backend != 'mem' and have:
+            # the sweep runs while a request is inside its handler
+            ca = rng.choice(sorted(have))
+            sa = rng.choice(['jar:%d' % ca, 'jar:%d' % ca, 'old:%d:0' % ca, 'none'])
+            pre = [h for h in gen_hops(rng, backend, 2) if h not in ('S', 'H', 'E', 'I', 'L')]
+            post = [h for h in gen_hops(rng, backend, 2) if h not in ('S', 'L')]
+            if backend == 'ram' and 'E' in post and any(h.startswith(MUTATING) for h in pre + post):
+                post = [h for h in post if h != 'E']
+            ops.append(['swpar', ca, sa, pre, post])
+            used += 2 + len(pre) + len(post)
+            if any(h[0] in 'rwkcA' for h in pre + post):
+                exp[ca] = now + T
         elif r < 0.80:
             targets = [e for e in exp.values() if e >= now]
             if targets and rng.random() < 0.7:
@@ -183,7 +195,7 @@ def gen_case(rng, backend=None, max_ops=40):
             used += 1
             exp.pop(client, None)
     dups = []
-    if rng.random() < 0.45 and not any(o[0] == 'par' for o in ops):
+    if rng.random() < 0.45 and not any(o[0] in ('par', 'swpar') for o in ops):
         for k in range(12):
             if rng.random() < 0.3:
                 dups.append([k, rng.randrange(8)])
@@ -205,7 +217,7 @@ def gen_case(rng, backend=None, max_ops=40):
     q = rng.random()
     if q < 0.1:
         case['locking'] = 'early'
-    elif q < 0.15 and not any(o[0] == 'par' for o in ops):
+    elif q < 0.15 and not any(o[0] in ('par', 'swpar') for o in ops):
         case['locking'] = 'explicit'
     if backend == 'file' and rng.random() < 0.1:
         case['lock_timeout'] = rng.choice([5, 2.5])
@@ -291,4 +303,27 @@ def monitor_scenarios(rng, n):
     out = [[], [(0, 0)], [(0, 5)], [(0, 0), (0, 5), (0, 1)], [(1, 2), (0, 0), (1, 5), (2, 1), (0, 3), (2, 9)]]
     for _ in range(n):
         out.append([(rng.randrange(3), rng.choice([0, 0, 1, 5, 7])) for _ in range(rng.randint(1, 8))])
+    return out
+
+
+def sweep_overlap_cases(rng, n):
+    """Targeted: the sweep runs while a request is inside its handler.  The request presents a session that
+    is live, at its boundary tick, or expired but not yet swept, and then reads / writes / regenerates /
+    deletes; other sessions (live and expired) surround it in the listing."""
+    out = []
+    for i in range(n):
+        backend = ['file', 'file', 'ram'][i % 3]
+        T = rng.choice([1, 2])
+        hist = [['req', c, 'none', ['w.%d.%d' % (c + 1, rng.randrange(len(VALS)))]] for c in range(3)]
+        hist.append(['adv', rng.choice([T - 1, T, T + 1, T + 1])])
+        if rng.random() < 0.4:
+            hist.append(['req', 2, 'jar:2', ['r']])          # one of the others is renewed
+        who = rng.choice([0, 1, 1])
+        spec = rng.choice(['jar:%d' % who, 'jar:%d' % who, 'jar:%d' % who, 'none', 'unk:1'])
+        pre = rng.choice([[], [], ['r'], ['r1'], ['A.get.2'], ['g'], ['w.3.3']])
+        post = rng.choice([['w.3.1'], ['w.2.2', 'r'], ['r'], [], ['A.sd.1.4'], ['g', 'w.1.1'], ['d'], ['c', 'w.3.3'],
+                           ['w.1.1', 'H']])
+        tail = [['req', 3, 'jar:%d' % who, ['r']], ['sweep'], ['req', 3, 'jar:%d' % who, ['r']]]
+        out.append({'backend': backend, 'timeout': T, 'idseed': i, 'ops':
+                    hist + [['swpar', who, spec, pre, post]] + tail, 'sweep_overlap': i})
     return out
